@@ -5,6 +5,7 @@ tod_hour / tod_minute / tod_second / tod_micro / date_ordinal (spec/core.py), an
 through the assumed constructor contracts datetime.time / date.fromordinal (contracts/externals.py)."""
 from pyvc.contracts import target, lemma, R, implies, same
 import spec.core as S
+import spec.avro as A
 from pyvc.dsl import is_lib
 
 LW = "fastavro/_logical_writers_py.py"
@@ -19,7 +20,9 @@ class prepare_time_millis:
     modifies = []
     ensures = lambda data, result: (
         implies(S.is_time(data), same(result, ((S.tod_hour(data) * 60 + S.tod_minute(data)) * 60 + S.tod_second(data)) * 1000
-                                      + S.tod_micro(data) // 1000))
+                                      + S.tod_micro(data) // 1000)
+                and 0 <= ((S.tod_hour(data) * 60 + S.tod_minute(data)) * 60 + S.tod_second(data)) * 1000 + S.tod_micro(data) // 1000
+                and ((S.tod_hour(data) * 60 + S.tod_minute(data)) * 60 + S.tod_second(data)) * 1000 + S.tod_micro(data) // 1000 < 86400000)
         and implies(not S.is_time(data), same(result, data)))
 
 
@@ -29,7 +32,9 @@ class prepare_time_micros:
     modifies = []
     ensures = lambda data, result: (
         implies(S.is_time(data), same(result, ((S.tod_hour(data) * 60 + S.tod_minute(data)) * 60 + S.tod_second(data)) * 1000000
-                                      + S.tod_micro(data)))
+                                      + S.tod_micro(data))
+                and 0 <= ((S.tod_hour(data) * 60 + S.tod_minute(data)) * 60 + S.tod_second(data)) * 1000000 + S.tod_micro(data)
+                and ((S.tod_hour(data) * 60 + S.tod_minute(data)) * 60 + S.tod_second(data)) * 1000000 + S.tod_micro(data) < 86400000000)
         and implies(not S.is_time(data), same(result, data)))
 
 
@@ -63,7 +68,8 @@ class prepare_date:
     requires = lambda data: not isinstance(data, str)
     modifies = []
     ensures = lambda data, result: (
-        implies(S.is_date(data), same(result, S.date_ordinal(data) - 719163))
+        implies(S.is_date(data), same(result, S.date_ordinal(data) - 719163)
+                and -719162 <= S.date_ordinal(data) - 719163 and S.date_ordinal(data) - 719163 <= 2932896)
         and implies(not S.is_date(data) and not S.is_datetime(data), same(result, data)))
 
 
@@ -293,3 +299,279 @@ class read_local_timestamp_micros:
     returns = "py"
     ensures = lambda data, result: (
         S.is_datetime(result) and not S.dt_aware(result) and S.dt_us(result) == S.EPOCH_US + data)
+
+
+# ------------------------------------------------------------------ the write path: prepare, then the binary codec
+W = "fastavro/_write_py.py"
+
+
+@target(W, "write_data", behavior="time-millis")
+class write_data_time_millis:
+    """C16 on the write path: a time of day under {"type": "int", "logicalType": "time-millis"} is written as the Avro
+    int of its milliseconds after midnight"""
+    types = dict(encoder="BinaryEncoder", datum="py", schema="dict", named_schemas="dict", fname="py", options="dict")
+    requires = lambda encoder, datum, schema: (
+        encoder._fo.pos == len(encoder._fo.data) and is_lib(datum, "datetime.time")
+        and "type" in schema and schema["type"] == "int" and schema.get("logicalType") == "time-millis")
+    modifies = ["encoder._fo"]
+    call_behaviors = dict(prepare_time_millis="default", write_int="default")
+    ensures = lambda encoder, datum, result: (
+        encoder._fo.data == old.encoder._fo.data + S.long_bytes(
+            ((S.tod_hour(datum) * 60 + S.tod_minute(datum)) * 60 + S.tod_second(datum)) * 1000 + S.tod_micro(datum) // 1000)
+        and encoder._fo.pos == len(encoder._fo.data))
+
+
+@target(W, "write_data", behavior="time-micros")
+class write_data_time_micros:
+    types = dict(encoder="BinaryEncoder", datum="py", schema="dict", named_schemas="dict", fname="py", options="dict")
+    requires = lambda encoder, datum, schema: (
+        encoder._fo.pos == len(encoder._fo.data) and is_lib(datum, "datetime.time")
+        and "type" in schema and schema["type"] == "long" and schema.get("logicalType") == "time-micros")
+    modifies = ["encoder._fo"]
+    call_behaviors = dict(prepare_time_micros="default", write_long="default")
+    ensures = lambda encoder, datum, result: (
+        encoder._fo.data == old.encoder._fo.data + S.long_bytes(
+            ((S.tod_hour(datum) * 60 + S.tod_minute(datum)) * 60 + S.tod_second(datum)) * 1000000 + S.tod_micro(datum))
+        and encoder._fo.pos == len(encoder._fo.data))
+
+
+@target(W, "write_data", behavior="date")
+class write_data_date:
+    """a date under {"type": "int", "logicalType": "date"} is written as the Avro int of its days from 1970-01-01"""
+    types = dict(encoder="BinaryEncoder", datum="py", schema="dict", named_schemas="dict", fname="py", options="dict")
+    requires = lambda encoder, datum, schema: (
+        encoder._fo.pos == len(encoder._fo.data) and is_lib(datum, "datetime.date")
+        and "type" in schema and schema["type"] == "int" and schema.get("logicalType") == "date")
+    modifies = ["encoder._fo"]
+    call_behaviors = dict(prepare_date="default", write_int="default")
+    ensures = lambda encoder, datum, result: (
+        encoder._fo.data == old.encoder._fo.data + S.long_bytes(S.date_ordinal(datum) - 719163)
+        and encoder._fo.pos == len(encoder._fo.data))
+
+
+@target(W, "write_data", behavior="timestamp-millis")
+class write_data_timestamp_millis:
+    """an aware datetime under {"type": "long", "logicalType": "timestamp-millis"} is written as the Avro long of the whole
+    milliseconds from the UTC epoch to its instant"""
+    types = dict(encoder="BinaryEncoder", datum="py", schema="dict", named_schemas="dict", fname="py", options="dict")
+    requires = lambda encoder, datum, schema: (
+        encoder._fo.pos == len(encoder._fo.data) and is_lib(datum, "datetime.datetime") and S.dt_aware(datum)
+        # library invariant: an aware datetime's UTC instant is within a day of the representable wall-clock range
+        and -86400000000 <= S.dt_us(datum) and S.dt_us(datum) <= S.MAX_DT_US + 86400000000
+        and "type" in schema and schema["type"] == "long" and schema.get("logicalType") == "timestamp-millis")
+    modifies = ["encoder._fo"]
+    call_behaviors = dict(prepare_timestamp_millis="default", write_long="default")
+    ensures = lambda encoder, datum, result: (
+        encoder._fo.data == old.encoder._fo.data + S.long_bytes((S.dt_us(datum) - S.EPOCH_US) // 1000)
+        and encoder._fo.pos == len(encoder._fo.data))
+
+
+@target(W, "write_data", behavior="timestamp-micros")
+class write_data_timestamp_micros:
+    types = dict(encoder="BinaryEncoder", datum="py", schema="dict", named_schemas="dict", fname="py", options="dict")
+    requires = lambda encoder, datum, schema: (
+        encoder._fo.pos == len(encoder._fo.data) and is_lib(datum, "datetime.datetime") and S.dt_aware(datum)
+        and -86400000000 <= S.dt_us(datum) and S.dt_us(datum) <= S.MAX_DT_US + 86400000000
+        and "type" in schema and schema["type"] == "long" and schema.get("logicalType") == "timestamp-micros")
+    modifies = ["encoder._fo"]
+    call_behaviors = dict(prepare_timestamp_micros="default", write_long="default")
+    ensures = lambda encoder, datum, result: (
+        encoder._fo.data == old.encoder._fo.data + S.long_bytes(S.dt_us(datum) - S.EPOCH_US)
+        and encoder._fo.pos == len(encoder._fo.data))
+
+
+@target(W, "write_data", behavior="local-timestamp-millis")
+class write_data_local_timestamp_millis:
+    types = dict(encoder="BinaryEncoder", datum="py", schema="dict", named_schemas="dict", fname="py", options="dict")
+    requires = lambda encoder, datum, schema: (
+        encoder._fo.pos == len(encoder._fo.data) and is_lib(datum, "datetime.datetime") and not S.dt_aware(datum)
+        and 0 <= S.dt_us(datum) and S.dt_us(datum) <= S.MAX_DT_US
+        and "type" in schema and schema["type"] == "long" and schema.get("logicalType") == "local-timestamp-millis")
+    modifies = ["encoder._fo"]
+    call_behaviors = dict(prepare_local_timestamp_millis="default", write_long="default")
+    ensures = lambda encoder, datum, result: (
+        encoder._fo.data == old.encoder._fo.data + S.long_bytes((S.dt_us(datum) - S.EPOCH_US) // 1000)
+        and encoder._fo.pos == len(encoder._fo.data))
+
+
+@target(W, "write_data", behavior="local-timestamp-micros")
+class write_data_local_timestamp_micros:
+    types = dict(encoder="BinaryEncoder", datum="py", schema="dict", named_schemas="dict", fname="py", options="dict")
+    requires = lambda encoder, datum, schema: (
+        encoder._fo.pos == len(encoder._fo.data) and is_lib(datum, "datetime.datetime") and not S.dt_aware(datum)
+        and 0 <= S.dt_us(datum) and S.dt_us(datum) <= S.MAX_DT_US
+        and "type" in schema and schema["type"] == "long" and schema.get("logicalType") == "local-timestamp-micros")
+    modifies = ["encoder._fo"]
+    call_behaviors = dict(prepare_local_timestamp_micros="default", write_long="default")
+    ensures = lambda encoder, datum, result: (
+        encoder._fo.data == old.encoder._fo.data + S.long_bytes(S.dt_us(datum) - S.EPOCH_US)
+        and encoder._fo.pos == len(encoder._fo.data))
+
+
+@target(W, "write_data", behavior="bytes-decimal")
+class write_data_bytes_decimal:
+    """a finite decimal under {"type": "bytes", "logicalType": "decimal", ...} is written as Avro bytes holding the
+    two's complement of its unscaled integer; what precision / scale cannot hold raises ValueError, nothing written"""
+    types = dict(encoder="BinaryEncoder", datum="py", schema="dict", named_schemas="dict", fname="py", options="dict")
+    requires = lambda encoder, datum, schema: (
+        encoder._fo.pos == len(encoder._fo.data) and is_lib(datum, "decimal.Decimal")
+        and isinstance(S.dec_exp(datum), int) and not isinstance(S.dec_exp(datum), bool)
+        and "type" in schema and schema["type"] == "bytes" and schema.get("logicalType") == "decimal"
+        and isinstance(schema.get("scale", 0), int) and not isinstance(schema.get("scale", 0), bool)
+        and "precision" in schema and isinstance(schema["precision"], int) and not isinstance(schema["precision"], bool))
+    modifies = ["encoder._fo"]
+    call_behaviors = dict(prepare_bytes_decimal="default", write_bytes="default")
+    raises = [R("ValueError", when=lambda datum, schema: (
+        len(S.dec_digits(datum)) > schema["precision"] or S.dec_exp(datum) + schema.get("scale", 0) < 0),
+        ensures=lambda encoder: encoder._fo.data == old.encoder._fo.data and encoder._fo.pos == old.encoder._fo.pos)]
+    ensures = lambda encoder, datum, schema, result: (
+        encoder._fo.data == old.encoder._fo.data
+        + S.long_bytes(len(S.int_to_bytes_signed_big(
+            S.UNSCALED(datum, schema.get("scale", 0)),
+            (S.bit_length(S.pow10(S.dec_exp(datum) + schema.get("scale", 0)) * S.DIGVAL(S.dec_digits(datum), len(S.dec_digits(datum)))) + 8) // 8)))
+        + S.int_to_bytes_signed_big(
+            S.UNSCALED(datum, schema.get("scale", 0)),
+            (S.bit_length(S.pow10(S.dec_exp(datum) + schema.get("scale", 0)) * S.DIGVAL(S.dec_digits(datum), len(S.dec_digits(datum)))) + 8) // 8)
+        and encoder._fo.pos == len(encoder._fo.data))
+
+
+@target(W, "write_data", behavior="fixed-decimal")
+class write_data_fixed_decimal:
+    """... and under a fixed of size n as exactly n bytes (sign-extended); a number that does not fit raises ValueError"""
+    types = dict(encoder="BinaryEncoder", datum="py", schema="dict", named_schemas="dict", fname="py", options="dict")
+    requires = lambda encoder, datum, schema, named_schemas: (
+        encoder._fo.pos == len(encoder._fo.data) and is_lib(datum, "decimal.Decimal")
+        and isinstance(S.dec_exp(datum), int) and not isinstance(S.dec_exp(datum), bool)
+        and "type" in schema and schema["type"] == "fixed" and schema.get("logicalType") == "decimal"
+        and A.WF(schema, named_schemas)
+        and isinstance(schema.get("scale", 0), int) and not isinstance(schema.get("scale", 0), bool)
+        and "precision" in schema and isinstance(schema["precision"], int) and not isinstance(schema["precision"], bool)
+        and "size" in schema and isinstance(schema["size"], int) and not isinstance(schema["size"], bool) and schema["size"] >= 1)
+    modifies = ["encoder._fo"]
+    call_behaviors = dict(prepare_fixed_decimal="default", write_fixed="default")
+    raises = [R("ValueError", when=lambda datum, schema: (
+        len(S.dec_digits(datum)) > schema["precision"] or S.dec_exp(datum) + schema.get("scale", 0) < 0
+        or not S.FITS_SIGNED(S.UNSCALED(datum, schema.get("scale", 0)), schema["size"])),
+        ensures=lambda encoder: encoder._fo.data == old.encoder._fo.data and encoder._fo.pos == old.encoder._fo.pos)]
+    ensures = lambda encoder, datum, schema, result: (
+        encoder._fo.data == old.encoder._fo.data + S.int_to_bytes_signed_big(S.UNSCALED(datum, schema.get("scale", 0)), schema["size"])
+        and encoder._fo.pos == len(encoder._fo.data))
+
+
+# ------------------------------------------------------------------ the read path: the binary codec, then the converter
+RDP = "fastavro/_read_py.py"
+
+
+@target(RDP, "read_data", behavior="time-millis")
+class read_data_time_millis:
+    """C16 on the read path: the Avro int n (0 <= n < 86 400 000) under {"type": "int", "logicalType": "time-millis"}
+    comes back as the time of day n milliseconds after midnight"""
+    types = dict(decoder="BinaryDecoder", writer_schema="dict", named_schemas="dict", reader_schema="none", options="dict")
+    ghosts = dict(n="int", rest="bytes")
+    requires = lambda decoder, writer_schema, named_schemas: (
+        0 <= n and n < 86400000 and decoder.fo.rem == S.long_bytes(n) + rest
+        and "writer" in named_schemas and isinstance(named_schemas["writer"], dict)
+        and "type" in writer_schema and writer_schema["type"] == "int" and writer_schema.get("logicalType") == "time-millis")
+    modifies = ["decoder.fo"]
+    call_behaviors = dict(read_int="default", read_time_millis="default")
+    call_ghosts = {"*": dict(w=lambda: n, rest=lambda: rest)}
+    ensures = lambda decoder, result: (
+        decoder.fo.rem == rest and S.is_time(result) and S.tod_hour(result) == n // 3600000
+        and S.tod_minute(result) == (n // 60000) % 60 and S.tod_second(result) == (n // 1000) % 60
+        and S.tod_micro(result) == (n % 1000) * 1000)
+
+
+@target(RDP, "read_data", behavior="time-micros")
+class read_data_time_micros:
+    types = dict(decoder="BinaryDecoder", writer_schema="dict", named_schemas="dict", reader_schema="none", options="dict")
+    ghosts = dict(n="int", rest="bytes")
+    requires = lambda decoder, writer_schema, named_schemas: (
+        0 <= n and n < 86400000000 and decoder.fo.rem == S.long_bytes(n) + rest
+        and "writer" in named_schemas and isinstance(named_schemas["writer"], dict)
+        and "type" in writer_schema and writer_schema["type"] == "long" and writer_schema.get("logicalType") == "time-micros")
+    modifies = ["decoder.fo"]
+    call_behaviors = dict(read_long="default", read_time_micros="default")
+    call_ghosts = {"*": dict(w=lambda: n, rest=lambda: rest)}
+    ensures = lambda decoder, result: (
+        decoder.fo.rem == rest and S.is_time(result) and S.tod_hour(result) == n // 3600000000
+        and S.tod_minute(result) == (n // 60000000) % 60 and S.tod_second(result) == (n // 1000000) % 60
+        and S.tod_micro(result) == n % 1000000)
+
+
+@target(RDP, "read_data", behavior="date")
+class read_data_date:
+    types = dict(decoder="BinaryDecoder", writer_schema="dict", named_schemas="dict", reader_schema="none", options="dict")
+    ghosts = dict(n="int", rest="bytes")
+    requires = lambda decoder, writer_schema, named_schemas: (
+        1 <= n + 719163 and n + 719163 <= 3652059 and decoder.fo.rem == S.long_bytes(n) + rest
+        and "writer" in named_schemas and isinstance(named_schemas["writer"], dict)
+        and "type" in writer_schema and writer_schema["type"] == "int" and writer_schema.get("logicalType") == "date")
+    modifies = ["decoder.fo"]
+    call_behaviors = dict(read_int="default", read_date="default")
+    call_ghosts = {"*": dict(w=lambda: n, rest=lambda: rest)}
+    ensures = lambda decoder, result: decoder.fo.rem == rest and S.is_date(result) and S.date_ordinal(result) == n + 719163
+
+
+@target(RDP, "read_data", behavior="timestamp-millis")
+class read_data_timestamp_millis:
+    """the Avro long n under timestamp-millis comes back as the aware datetime, in UTC, n milliseconds from the epoch"""
+    types = dict(decoder="BinaryDecoder", writer_schema="dict", named_schemas="dict", reader_schema="none", options="dict")
+    ghosts = dict(n="int", rest="bytes")
+    requires = lambda decoder, writer_schema, named_schemas: (
+        0 <= S.EPOCH_US + n * 1000 and S.EPOCH_US + n * 1000 <= S.MAX_DT_US and decoder.fo.rem == S.long_bytes(n) + rest
+        and "writer" in named_schemas and isinstance(named_schemas["writer"], dict)
+        and "type" in writer_schema and writer_schema["type"] == "long" and writer_schema.get("logicalType") == "timestamp-millis")
+    modifies = ["decoder.fo"]
+    call_behaviors = dict(read_long="default", read_timestamp_millis="default")
+    call_ghosts = {"*": dict(w=lambda: n, rest=lambda: rest)}
+    ensures = lambda decoder, result: (
+        decoder.fo.rem == rest and S.is_datetime(result) and S.dt_aware(result) and S.dt_offset_us(result) == 0
+        and S.dt_us(result) == S.EPOCH_US + n * 1000)
+
+
+@target(RDP, "read_data", behavior="timestamp-micros")
+class read_data_timestamp_micros:
+    types = dict(decoder="BinaryDecoder", writer_schema="dict", named_schemas="dict", reader_schema="none", options="dict")
+    ghosts = dict(n="int", rest="bytes")
+    requires = lambda decoder, writer_schema, named_schemas: (
+        0 <= S.EPOCH_US + n and S.EPOCH_US + n <= S.MAX_DT_US and decoder.fo.rem == S.long_bytes(n) + rest
+        and "writer" in named_schemas and isinstance(named_schemas["writer"], dict)
+        and "type" in writer_schema and writer_schema["type"] == "long" and writer_schema.get("logicalType") == "timestamp-micros")
+    modifies = ["decoder.fo"]
+    call_behaviors = dict(read_long="default", read_timestamp_micros="default")
+    call_ghosts = {"*": dict(w=lambda: n, rest=lambda: rest)}
+    ensures = lambda decoder, result: (
+        decoder.fo.rem == rest and S.is_datetime(result) and S.dt_aware(result) and S.dt_offset_us(result) == 0
+        and S.dt_us(result) == S.EPOCH_US + n)
+
+
+@target(RDP, "read_data", behavior="local-timestamp-millis")
+class read_data_local_timestamp_millis:
+    types = dict(decoder="BinaryDecoder", writer_schema="dict", named_schemas="dict", reader_schema="none", options="dict")
+    ghosts = dict(n="int", rest="bytes")
+    requires = lambda decoder, writer_schema, named_schemas: (
+        0 <= S.EPOCH_US + n * 1000 and S.EPOCH_US + n * 1000 <= S.MAX_DT_US and decoder.fo.rem == S.long_bytes(n) + rest
+        and "writer" in named_schemas and isinstance(named_schemas["writer"], dict)
+        and "type" in writer_schema and writer_schema["type"] == "long"
+        and writer_schema.get("logicalType") == "local-timestamp-millis")
+    modifies = ["decoder.fo"]
+    call_behaviors = dict(read_long="default", read_local_timestamp_millis="default")
+    call_ghosts = {"*": dict(w=lambda: n, rest=lambda: rest)}
+    ensures = lambda decoder, result: (
+        decoder.fo.rem == rest and S.is_datetime(result) and not S.dt_aware(result) and S.dt_us(result) == S.EPOCH_US + n * 1000)
+
+
+@target(RDP, "read_data", behavior="local-timestamp-micros")
+class read_data_local_timestamp_micros:
+    types = dict(decoder="BinaryDecoder", writer_schema="dict", named_schemas="dict", reader_schema="none", options="dict")
+    ghosts = dict(n="int", rest="bytes")
+    requires = lambda decoder, writer_schema, named_schemas: (
+        0 <= S.EPOCH_US + n and S.EPOCH_US + n <= S.MAX_DT_US and decoder.fo.rem == S.long_bytes(n) + rest
+        and "writer" in named_schemas and isinstance(named_schemas["writer"], dict)
+        and "type" in writer_schema and writer_schema["type"] == "long"
+        and writer_schema.get("logicalType") == "local-timestamp-micros")
+    modifies = ["decoder.fo"]
+    call_behaviors = dict(read_long="default", read_local_timestamp_micros="default")
+    call_ghosts = {"*": dict(w=lambda: n, rest=lambda: rest)}
+    ensures = lambda decoder, result: (
+        decoder.fo.rem == rest and S.is_datetime(result) and not S.dt_aware(result) and S.dt_us(result) == S.EPOCH_US + n)
